@@ -68,6 +68,18 @@ def cases(rng, tier):
         cs.append(Case(27, [], [b[:70000]], tag))
     for b in big_bodies(rng):
         cs.append(Case(27, [], [b], "upd.over-65535"))
+    # Decode is a function of the body alone: the same decoder first decodes other UPDATEs (byte strings 2.. of the case; among
+    # them ones that abort on a repeated MP attribute or on an overrun), then the body under test; the model ignores them
+    mp = gen.enc_attr(0x80, 14, bytes([0, 1, 1, 0, 0]))
+    abort = struct.pack(">H", 0) + struct.pack(">H", len(gen.enc_attr(0x40, 1, b"\x00") + gen.enc_attr(0x40, 2, b"") + mp + mp)) + \
+        gen.enc_attr(0x40, 1, b"\x00") + gen.enc_attr(0x40, 2, b"") + mp + mp
+    unreach2 = gen.enc_attr(0x80, 15, bytes([0, 1, 1]))
+    abort2 = struct.pack(">H", 0) + struct.pack(">H", len(unreach2 + unreach2)) + unreach2 + unreach2
+    for _ in range(300 if tier == "quick" else 5000):
+        b, tag = gen.r_update_body(rng)
+        primes = [rng.choice([abort, abort2, gen.r_update_body(rng)[0], gen.mutate(rng, gen.r_update_body(rng)[0])])
+                  for _ in range(rng.randint(1, 3))]
+        cs.append(Case(27, [], [b[:4096]] + [p[:4096] for p in primes], "upd.after-other-decodes"))
     return cs
 
 
